@@ -487,10 +487,26 @@ fn sc_liquidity(t: &mut Tracer, ss_decs: [u8; 2], name: &str) {
     w.provide(&c, "o.cp1", &sorted(vec![coin(5_000 * d(6), "uusdc"), coin(7_000 * d(6), "uusdt")]), None, Some(7 * DAY), Some("u-mine"), None, None); // foreign id
     w.provide(&c, "o.cp1", &[coin(100_000_000_000_000, "uusdc")], None, None, None, None, Some(Decimal::percent(1))); // internal swap exceeds slippage: refused
     w.provide(&c, "o.cp1", &[coin(1, "uusdc")], None, None, None, None, half); // half = 0
+    // topping up a position that was closed in the meantime, through the pool manager: refused
+    {
+        let fa = w.s.farm.clone();
+        let lpd1 = w.s.lp_denom("o.cp1");
+        w.provide(&c, "o.cp1", &sorted(vec![coin(5_000 * d(6), "uusdc"), coin(7_000 * d(6), "uusdt")]), None, Some(DAY), Some("tobeclosed"), None, None);
+        let r = w.s.exec(&c, &fa, &mantra_dex_std::farm_manager::ExecuteMsg::ManagePosition { action: mantra_dex_std::farm_manager::PositionAction::Close { identifier: "u-tobeclosed".into(), lp_asset: None } }, &[]);
+        let post = w.s.snapshot(w.mask);
+        w.t.emit("fm_direct", json!({"ok": r.is_ok(), "post": post, "note": "closed u-tobeclosed in the farm manager"}));
+        let _ = lpd1;
+        w.provide(&c, "o.cp1", &sorted(vec![coin(5_000 * d(6), "uusdc"), coin(7_000 * d(6), "uusdt")]), None, Some(DAY), Some("u-tobeclosed"), None, None);
+        w.provide(&c, "o.cp1", &[coin(2_000_000, "uusdc")], None, Some(DAY), Some("u-tobeclosed"), None, half);
+    }
     // single-asset deposits large enough to move the price, with a liquidity tolerance tighter than the swap tolerance
     for (liq, sw) in [(1u64, 20u64), (5, 30), (20, 30), (1, 1)] {
         w.provide(&c, "o.cp1", &[coin(1_500_000 * d(6), "uusdc")], None, None, None, Some(Decimal::percent(liq)), Some(Decimal::percent(sw)));
     }
+    // dust legs on the 6/18 pool: one leg is worth less than one LP unit
+    w.provide(&a, "o.cp2", &sorted(vec![coin(3_000 * d(6), "uusdt"), coin(1, "uweth")]), None, None, None, None, None);
+    w.provide(&a, "o.cp2", &sorted(vec![coin(1, "uusdt"), coin(1_000_000_000_000_000_000, "uweth")]), None, None, None, None, None);
+    w.provide(&a, "o.cp2", &sorted(vec![coin(1_000_000 * d(6), "uusdt"), coin(17_000, "uweth")]), None, None, None, None, None);
     // locking the LP of one pool into a position that holds the LP of another pool: refused
     w.provide(&a, "o.cp2", &sorted(vec![coin(3_000 * d(6), "uusdt"), coin(1_000_000_000_000_000_000, "uweth")]), None, Some(DAY), Some("u-mine"), None, None);
     w.provide(&a, "o.cp2", &[coin(3_000 * d(6), "uusdt")], None, Some(DAY), Some("u-mine"), None, half);
@@ -897,6 +913,35 @@ pub fn run_stable(rng: &mut StdRng, thorough: bool, t: &mut Tracer) {
             w.provide(&lp, "o.s", &f, None, None, None, None, None);
             w.swap(&lp, "o.s", &[coin(1_000_000_000, "uusd")], "uusdc", None, Some(Decimal::percent(50)), None);
             w.provide(&lp, "o.s", &sorted(vec![coin(1_000_000, "uusd"), coin(1_000_000_000_000_000_000, "uusdc")]), None, None, None, None, None);
+        }
+    }
+    // amplification above the documented range is accepted at creation: the pool must still be priced consistently
+    sc_stable_magnitude(t, rng, 90, 2, 50_000_000, &[6, 6], 10_000_000, &[900, 100], fees(100, 200, 100, &[]), 10);
+    // offers worth less than one unit of the ask asset on a skewed low-amp pool (18 -> 6 decimals, ask asset cheap)
+    {
+        let mut w = PW::new(SysCfg::default(), t, "stable_subunit_offers");
+        let o = w.user(0);
+        let ok = w.creation_funds();
+        if w.create_pool(&o, &["uusd", "uusdc"], &[18, 6], zero.clone(), SS(1), Some("s"), &ok) {
+            let lp = w.user(1);
+            w.provide(&lp, "o.s", &sorted(vec![coin(1_000 * 10u128.pow(18), "uusd"), coin(1_000_000 * 10u128.pow(6), "uusdc")]), None, None, None, None, None);
+            for offer in [1u128, 999, 100_000_000_000, 500_000_000_000, 999_999_999_999, 1_000_000_000_000, 3_000_000_000_001] {
+                w.swap(&lp, "o.s", &[coin(offer, "uusd")], "uusdc", None, Some(Decimal::percent(50)), None);
+            }
+        }
+    }
+    // a reserve drained to exactly zero (oversized swap on a fee-less pool, belief price given): no quote may be produced afterwards
+    {
+        let mut w = PW::new(SysCfg::default(), t, "stable_drained_reserve");
+        let o = w.user(0);
+        let ok = w.creation_funds();
+        if w.create_pool(&o, &["uusd", "uusdc"], &[6, 6], zero.clone(), SS(85), Some("s"), &ok) {
+            let lp = w.user(1);
+            w.provide(&lp, "o.s", &sorted(vec![coin(10_000, "uusd"), coin(10_000, "uusdc")]), None, None, None, None, None);
+            w.swap(&lp, "o.s", &[coin(1_000_000_000_000, "uusd")], "uusdc", Some(Decimal::from_ratio(100_000_000u128, 1u128)), Some(Decimal::percent(50)), None);
+            w.swap(&lp, "o.s", &[coin(100_000_000_000, "uusdc")], "uusd", None, Some(Decimal::percent(50)), None);
+            w.swap(&lp, "o.s", &[coin(1_000, "uusdc")], "uusd", None, Some(Decimal::percent(50)), None);
+            w.rsim("o.s", &coin(1_000_000, "uusd"), "uusdc");
         }
     }
     let n = if thorough { 120 } else { 14 };
